@@ -629,6 +629,7 @@ def _out_path(case):
 
 
 def reference_noxml(case):
+    W.reference_clock()
     W.install_seams()
     B._quiet()
     w = _world(Tape(replay=[]), case)
